@@ -781,10 +781,26 @@ theorem C05_tracker_records_unique_carrier (s : Sys F) (pkt : Sys.Bytes) (now : 
   rw [if_pos ⟨hid, rfl, hage⟩]
 
 /-- **Nothing else writes the ring**: uplink datagrams (ACK / NAK / registration / keepalive echoes),
-periodic flushes, housekeeping (reconnects included) and configuration events leave it untouched. -/
-theorem C05_tracker_written_only_by_routing (s : Sys F) (e : Ev) (h : ∀ now pkt, e ≠ .client now pkt) :
+periodic flushes, housekeeping (reconnects included) and configuration events leave it untouched.
+`hnr`: over events / runs that keep the link set (no `Ev.reload`); a reload keeps the whole record of every retained link
+(`Props/SysReload.lean: reload_frame`) and the theorem applies again from the state after it.  What a reload
+(`apply_connection_changes`) does to the ring is `C05_tracker_reload_only_erases` below: it writes no
+(number, id) pair, it only ERASES the entries naming a removed conn id. -/
+theorem C05_tracker_written_only_by_routing (s : Sys F) (e : Ev) (h : ∀ now pkt, e ≠ .client now pkt)
+    (hnr : e.isReload = false) :
     (step s e).1.trk = s.trk :=
-  TrackerTie.step_trk_other s e h
+  TrackerTie.step_trk_other s e h hnr
+
+/-- **The ring through a reload** (`apply_connection_changes`), slot by slot: if at least one link was
+removed, an entry naming a removed conn id is reset to the all-zero default (`remove_connection`); every
+other entry is untouched.  So a reload never makes the ring name a link — it only forgets removed ones — and
+the shell invariant `C05_sys_remembered_ids_present` holds through reloads as it stands. -/
+theorem C05_tracker_reload_only_erases (s : Sys F) (now : Nat) (addrs : List Nat) (outs : List (Option Nat))
+    (i : Nat) :
+    ((step s (.reload now addrs outs)).1.trk.ent i) =
+      if (retained s.links addrs).length ≠ s.links.length ∧ (s.trk.ent i).connId ∈ removedIds s.links addrs
+      then {} else s.trk.ent i :=
+  TrackerTie.reload_trk_ent s now addrs outs i
 
 /-- **Shell invariant**: along every run of the shell from a state whose ring is empty (start-up), every
 id the ring remembers is the conn id of a link — so in `process_connection_events` a tracker hit always
